@@ -84,7 +84,11 @@ impl Contents {
             return;
         }
 
-        let Range { start, end } = range;
+        // Clamp both positions into the document: a character beyond the end
+        // of a line denotes the end of that line (before its terminator) and a
+        // line beyond the last line denotes the end of the document.
+        let start = &self.clamp_position(range.start);
+        let end = &std::cmp::max(*start, self.clamp_position(range.end));
 
         let start_char = start.character as usize;
         let end_char = end.character as usize;
@@ -126,6 +130,37 @@ impl Contents {
         self.lines
             .splice(start_line..=end_line, split_lines(&merged_content))
             .count();
+    }
+}
+
+impl Contents {
+    /// The position inside the document that `pos` denotes
+    fn clamp_position(&self, pos: Position) -> Position {
+        fn content_len_utf16(line: &str) -> u32 {
+            line.strip_suffix('\n')
+                .unwrap_or(line)
+                .chars()
+                .map(|chr| chr.len_utf16())
+                .sum::<usize>() as u32
+        }
+
+        if let Some(line) = self.lines.get(pos.line as usize) {
+            Position {
+                line: pos.line,
+                character: std::cmp::min(pos.character, content_len_utf16(line)),
+            }
+        } else {
+            match self.lines.last() {
+                Some(last) if !last.ends_with('\n') => Position {
+                    line: (self.lines.len() - 1) as u32,
+                    character: content_len_utf16(last),
+                },
+                _ => Position {
+                    line: self.lines.len() as u32,
+                    character: 0,
+                },
+            }
+        }
     }
 }
 
